@@ -94,16 +94,8 @@ func ruleC18(c *Ctx) {
 
 	// WRITERS
 	for _, f := range []*ssa.Function{add, cmp} {
-		var ws []string
-		for _, g := range family(f) {
-			if g == f || len(newFamView(f).args[g]) > 0 {
-				ws = append(ws, argWriters(g)...)
-			}
-		}
-		if len(ws) == 0 {
-			ws = argWriters(f)
-		}
-		c.check(len(ws) == 0, "WRITERS", fname(f)+" does not write its arguments", f.Pos(), "no store through memory reachable from a parameter", "stores into argument memory: "+strings.Join(ws, "; ")+": the caller's table (and, for a default table, the package's shared table) is changed by the call")
+		ws := apiArgWrites(f)
+		c.check(len(ws) == 0, "WRITERS", fname(f)+" does not write its arguments", f.Pos(), "no store or in-place append reaches memory reachable from a parameter", "stores into argument memory: "+strings.Join(ws, "; ")+": the caller's table (and, for a default table, the package's shared table) is changed by the call")
 	}
 	checkAddTable(c, add)
 	checkCompromise(c, cmp)
@@ -218,6 +210,45 @@ func checkAddTable(c *Ctx, add *ssa.Function) {
 }
 
 // sampleRel evaluates a comparison atom whose two sides are named quantities (by rendered term) or constants.
+func numVal(x *Term, env map[string]float64) (float64, bool) {
+	var val func(x *Term) (float64, bool)
+	val = func(x *Term) (float64, bool) {
+		if v, ok := env[x.String()]; ok {
+			return v, true
+		}
+		if f, ok := x.constFloat(); ok {
+			return f, true
+		}
+		if x.Op == "conv" && len(x.Args) == 1 {
+			v, ok := val(x.Args[0])
+			if ok && strings.HasPrefix(x.Name, "int") {
+				return math.Trunc(v), true
+			}
+			return v, ok
+		}
+		if x.Op == "binop" && len(x.Args) == 2 {
+			a, ok1 := val(x.Args[0])
+			b, ok2 := val(x.Args[1])
+			if ok1 && ok2 {
+				switch x.Name {
+				case "+":
+					return a + b, true
+				case "-":
+					return a - b, true
+				case "*":
+					return a * b, true
+				case "/":
+					if b != 0 {
+						return a / b, true
+					}
+				}
+			}
+		}
+		return 0, false
+	}
+	return val(x)
+}
+
 func sampleAtom(t *Term, env map[string]float64) (bool, bool) {
 	if t.Op != "binop" || len(t.Args) != 2 {
 		return false, false
@@ -526,6 +557,25 @@ func checkCompromise(c *Ctx, cmp *ssa.Function) {
 	if zc != nil && ac != nil {
 		stC = holds
 		s1s, s2s := s1.String(), s2.String()
+		// the threshold the shares are compared with: whatever mentions cutOff in those comparisons
+		for _, cd := range []*Cond{zc, ac} {
+			for _, at := range cd.atoms() {
+				if at.Atom.Op != "binop" || len(at.Atom.Args) != 2 {
+					continue
+				}
+				for k := 0; k < 2; k++ {
+					sh, th := stripConv(at.Atom.Args[k]), at.Atom.Args[1-k]
+					if (sh.String() == s1s || sh.String() == s2s) && th.contains(func(x *Term) bool { return x.isParam(2) }) {
+						cut = th.String()
+						for _, x := range []float64{0.255, 0.1234, 0.5, 0.0999, 0.9} {
+							if v, ok := numVal(th, map[string]float64{"param[2]": x}); ok && v != math.Trunc(10000*x) && stC != broken {
+								stC, whyC = broken, fmt.Sprintf("for cutOff = %v the shares (scaled to 10000) are compared with %v; the cut-off on that scale is %v: codons between the two are kept although they are rarer than the cut-off", x, v, math.Trunc(10000*x))
+							}
+						}
+					}
+				}
+			}
+		}
 		for _, a1 := range []float64{4, 5, 6} {
 			for _, a2 := range []float64{4, 5, 6} {
 				env := map[string]float64{s1s: a1, s2s: a2, cut: 5, "conv[int](" + s1s + ")": a1, "conv[int](" + s2s + ")": a2}
@@ -539,6 +589,7 @@ func checkCompromise(c *Ctx, cmp *ssa.Function) {
 				av, ak := evalCond3(ac, ev)
 				wantZero := a1 < 5 || a2 < 5
 				switch {
+				case stC == broken:
 				case zk && ak && zv == wantZero && av == !wantZero:
 				case (zk && zv != wantZero) || (ak && av == wantZero):
 					rel := func(v float64) string {
